@@ -2,6 +2,7 @@ package props
 
 import (
 	"fmt"
+	"math"
 	"runtime"
 
 	"github.com/sahandsafizadeh/qeep/tensor"
@@ -91,8 +92,29 @@ func backpropCounted(t tensor.Tensor, bound int) (rc *ruleCounter, err error, ex
 	return rc, err, nil, panicked
 }
 
+// maxAbsAll: like maxAbs but NaN / Inf count as infinite.
+func maxAbsAll(t *ref.T) float64 {
+	m := 0.
+	for _, v := range t.Data {
+		a := math.Abs(v)
+		if a != a || a > m {
+			m = a
+		}
+		if a != a {
+			return math.Inf(1)
+		}
+	}
+	return m
+}
+
 // checkGrads compares every tensor's gradient with the expected ones (nil = must be nil).
 func checkGrads(ts []tensor.Tensor, want []*ref.T, what string) string {
+	return checkGradsScaled(ts, want, nil, what)
+}
+
+// checkGradsScaled: scale[i] (optional) holds, per element, the sum of the absolute contributions that were
+// accumulated into the expected gradient; a cancellation residue of 1e-11 of that scale is not a difference.
+func checkGradsScaled(ts []tensor.Tensor, want, scale []*ref.T, what string) string {
 	for i, t := range ts {
 		if t == nil {
 			continue
@@ -111,7 +133,11 @@ func checkGrads(ts []tensor.Tensor, want []*ref.T, what string) string {
 		if err != nil {
 			return fmt.Sprintf("%s: tensor %d: %v", what, i, err)
 		}
-		if e := gradClose(got, want[i]); e != nil {
+		var sc *ref.T
+		if scale != nil {
+			sc = scale[i]
+		}
+		if e := rt.CompareRef(got, want[i], 1e-10*(1+maxAbs(want[i])), 1e-9, sc, 1e-11); e != nil {
 			return fmt.Sprintf("%s: gradient of tensor %d differs from the total derivative: %v", what, i, e)
 		}
 	}
@@ -234,10 +260,18 @@ func c01OneRoot(k *fw.K, p ref.Prog, vals []*ref.T, root int) bool {
 		k.Failf("%s: BackPropagate failed: panic=%v err=%v", what, pn, berr)
 		return false
 	}
-	want := p.Grad(vals, root, nil, ref.RuleSum)
+	want, scale := p.GradS(vals, root, nil, ref.RuleSum)
+	// ill-conditioned programs get no verdict: gradients that overflow or are astronomically large are outside
+	// what a comparison of floating-point results can decide
+	for _, w := range want {
+		if w != nil && !(maxAbsAll(w) < 1e8) {
+			k.Count("backprops_skipped_ill_conditioned", 1)
+			return true
+		}
+	}
 	full := make([]tensor.Tensor, len(p))
 	copy(full, ts)
-	if msg := checkGrads(full[:root+1], want[:root+1], what); msg != "" {
+	if msg := checkGradsScaled(full[:root+1], want[:root+1], scale[:root+1], what); msg != "" {
 		k.Failf("%s", msg)
 		return false
 	}
